@@ -368,7 +368,8 @@ def ofRaw (r : RawEv) : Option (Option Ev) :=
       | _, _, _, some n => (hOf v).map (fun h => some (.rNext f n h))
       | _, _, _, _ => none
     | _, _ => none
-  else if schedulerFuncs.contains r.func || skipKinds.contains r.kind then some none else
+  -- a finished (joinable, never joined) harness fiber parks in fiber_manager_set_and_wait: runtime business
+  else if schedulerFuncs.contains r.func || r.func = "fiber_manager_set_and_wait" || skipKinds.contains r.kind then some none else
   match r.kind, r.args with
   | "note", ["call", "take"] => some (some (.callTake f))
   | "note", ["took"] => some (some (.took f))
